@@ -29,12 +29,10 @@ Definition C07_statement
      "updating again clears them" clause *)
   (forall r old, let '(c, pn) := update_p r old in changes r c pn = []) /\
   (* re-flag: in a later state r', a path whose state (content or absence) differs from the checkpoint commit's
-     and from the state recorded at update time is reported ... *)
+     and from its state at update time is reported - whatever any EARLIER update had recorded ... *)
   (forall r old r' p, let '(c, pn) := update_p r old in
      In p (universe r') -> ignored r' p = false ->
      work r' p <> c p -> work r' p <> work r p ->
-     (forall m d, pn = Some m -> plookup path digest path_eqb m p = Some d ->
-                  d = checksum path content digest sha empty_digest r p) ->
      In p (changes r' c pn)) /\
   (* ... and a tracked path whose content equals the checkpoint commit's is not *)
   (forall r' c pn p, tracked r' p = true -> work r' p = c p -> ~ In p (changes r' c pn)).
@@ -45,9 +43,11 @@ Theorem C07_holds :
 Proof.
   split; [|split].
   - intros r old. apply (C07_fixpoint path content digest path_eqb path_eqb_eq content_eqb digest_eqb digest_eqb_eq).
-  - intros r old r' p. unfold Git.update_p. intros Hu Hi Hc Hw Hrec.
+  - intros r old r' p.
+    pose proof (update_p_records_current path content digest path_eqb path_eqb_eq content_eqb digest_eqb sha empty_digest r old) as Hrec.
+    unfold Git.update_p, Git.update_p_with in *. simpl in Hrec. intros Hu Hi Hc Hw.
     apply (C07_reflag path content digest path_eqb content_eqb content_eqb_eq digest_eqb digest_eqb_eq); auto.
-    intros m d E El. pose proof (Hrec m d E El) as Hd.
+    intros m d E El. pose proof (Hrec m p d E El) as Hd.
     apply (novel_checksum path content digest sha empty_digest sha_inj sha_nonempty r r' p d Hd). congruence.
   - intros r' c pn p. apply (C07_unchanged_not_reported path content digest path_eqb content_eqb content_eqb_eq digest_eqb digest_eqb_eq).
 Qed.
